@@ -53,6 +53,20 @@ Proof.
   unfold discard_changes, close_editor. cbn. rewrite H1. reflexivity.
 Qed.
 
+(* an ApplyEdits failure in StatementComplete is never swallowed: the statement reports an error *)
+Theorem stmt_complete_error_is_reported (t : T) (cs : list call) :
+  all_good E cs = true -> (forall t' es, fst (apply_opt 1 t' es) = None) ->
+  fst (run_stmt T E apply_opt t cs) = RErr.
+Proof.
+  intros G F1. unfold run_stmt.
+  destruct (feed T E apply_opt (statement_begin T E (open_editor T E t)) cs) as [ed1 err] eqn:F.
+  pose proof (feed_err cs (statement_begin T E (open_editor T E t))) as Herr. rewrite F in Herr. cbn in Herr.
+  rewrite (first_bad_all_good cs G) in Herr. subst err.
+  unfold statement_complete, statement_complete_at. specialize (F1 (edited T E ed1) (acc T E ed1)).
+  destruct (apply_opt 1 (edited T E ed1) (acc T E ed1)) as [[x|] y]; cbn in F1; [discriminate|].
+  destruct (close_editor T E apply_opt _) as [cerr ed3]. reflexivity.
+Qed.
+
 Lemma first_bad_app pre post ig : all_good E pre = true -> first_bad (pre ++ CBad ig :: post) = Some ig.
 Proof. induction pre as [|c t IH]; cbn; auto. destruct c; cbn; try exact IH. discriminate. Qed.
 
@@ -155,7 +169,8 @@ Proof.
   rewrite (first_bad_all_good _ cs G) in Herr. subst err.
   destruct (feed_virtual cs (statement_begin T E (open_editor T E t)) G) as (H1 & H2).
   rewrite F in H1, H2. cbn [fst] in H1, H2. unfold virtual in H1. cbn in H1, H2.
-  unfold statement_complete, close_editor, total_apply. cbn. rewrite H2. cbn. rewrite H1, !apply_nil. reflexivity.
+  unfold statement_complete, statement_complete_at, close_editor, close_editor_at, total_apply. cbn. rewrite H2. cbn.
+  rewrite H1, !apply_nil. reflexivity.
 Qed.
 
 (* ---- the checkpointing iterator (INSERT IGNORE) ---- *)
@@ -173,7 +188,7 @@ Proof.
   induction cs as [|c t IH]; intros ed n (C1 & C2 & C3) N; cbn in *.
   - exists ed, n. rewrite apply_nil. repeat split; auto.
   - destruct c as [e|[|]| |]; cbn in N; try discriminate.
-    + destruct (IH (statement_complete_at T E total_apply n (accumulate T E (statement_begin T E ed) e)) (S n)) as (ed' & n' & F & C & Ed).
+    + destruct (IH (snd (statement_complete_at T E total_apply n (accumulate T E (statement_begin T E ed) e))) (S n)) as (ed' & n' & F & C & Ed).
       { unfold statement_complete_at, total_apply. cbn. rewrite C1, C2. repeat split. }
       { exact N. }
       exists ed', n'. split; [exact F|]. split; [exact C|]. rewrite Ed. unfold statement_complete_at, total_apply. cbn.
@@ -182,12 +197,12 @@ Proof.
       { cbn. rewrite C2, C3. repeat split. }
       { exact N. }
       exists ed', n'. split; [exact F|]. split; [exact C|]. rewrite Ed. reflexivity.
-    + destruct (IH (statement_complete_at T E total_apply n (statement_begin T E ed)) (S n)) as (ed' & n' & F & C & Ed).
+    + destruct (IH (snd (statement_complete_at T E total_apply n (statement_begin T E ed))) (S n)) as (ed' & n' & F & C & Ed).
       { unfold statement_complete_at, total_apply. cbn. rewrite C1, C2. repeat split. }
       { exact N. }
       exists ed', n'. split; [exact F|]. split; [exact C|]. rewrite Ed. unfold statement_complete_at, total_apply. cbn.
       rewrite C1, apply_nil. reflexivity.
-    + destruct (IH (statement_complete_at T E total_apply n (flush T E total_apply (statement_begin T E ed))) (S n)) as (ed' & n' & F & C & Ed).
+    + destruct (IH (snd (statement_complete_at T E total_apply n (flush T E total_apply (statement_begin T E ed)))) (S n)) as (ed' & n' & F & C & Ed).
       { unfold statement_complete_at, flush, total_apply. cbn. rewrite C2. repeat split. }
       { exact N. }
       exists ed', n'. split; [exact F|]. split; [exact C|]. rewrite Ed. unfold statement_complete_at, flush, total_apply. cbn.
@@ -212,7 +227,7 @@ Proof.
   induction pre as [|c t IH]; intros ed n (C1 & C2 & C3) N; cbn in *.
   - eexists. eexists. split; [reflexivity|]. cbn. rewrite apply_nil. auto.
   - destruct c as [e|[|]| |]; cbn in N; try discriminate.
-    + destruct (IH (statement_complete_at T E total_apply n (accumulate T E (statement_begin T E ed) e)) (S n)) as (ed' & n' & F & D & I).
+    + destruct (IH (snd (statement_complete_at T E total_apply n (accumulate T E (statement_begin T E ed) e))) (S n)) as (ed' & n' & F & D & I).
       { unfold statement_complete_at, total_apply. cbn. rewrite C1, C2. repeat split. }
       { exact N. }
       exists ed', n'. split; [exact F|]. split; [exact D|]. rewrite I. unfold statement_complete_at, total_apply. cbn.
@@ -221,12 +236,12 @@ Proof.
       { cbn. rewrite C2, C3. repeat split. }
       { exact N. }
       exists ed', n'. split; [exact F|]. split; [exact D|]. rewrite I. reflexivity.
-    + destruct (IH (statement_complete_at T E total_apply n (statement_begin T E ed)) (S n)) as (ed' & n' & F & D & I).
+    + destruct (IH (snd (statement_complete_at T E total_apply n (statement_begin T E ed))) (S n)) as (ed' & n' & F & D & I).
       { unfold statement_complete_at, total_apply. cbn. rewrite C1, C2. repeat split. }
       { exact N. }
       exists ed', n'. split; [exact F|]. split; [exact D|]. rewrite I. unfold statement_complete_at, total_apply. cbn.
       rewrite C1, apply_nil. reflexivity.
-    + destruct (IH (statement_complete_at T E total_apply n (flush T E total_apply (statement_begin T E ed))) (S n)) as (ed' & n' & F & D & I).
+    + destruct (IH (snd (statement_complete_at T E total_apply n (flush T E total_apply (statement_begin T E ed)))) (S n)) as (ed' & n' & F & D & I).
       { unfold statement_complete_at, flush, total_apply. cbn. rewrite C2. repeat split. }
       { exact N. }
       exists ed', n'. split; [exact F|]. split; [exact D|]. rewrite I. unfold statement_complete_at, flush, total_apply. cbn.
@@ -286,17 +301,18 @@ Lemma apply_error_at_close_after_publish :
   run_stmt (list nat) nat close_fault_apply [7] [CGood 1; CGood 2] = (RErr, [7; 1; 2]).
 Proof. reflexivity. Qed.
 
-(* a one-shot error in the FIRST call (StatementComplete swallows it: returns nil) is repaired by the retry in Close *)
+(* a one-shot error in the FIRST call is now reported by StatementComplete — but TableEditorIter.Close does not
+   discard after it, and tableEditor.Close retries ApplyEdits and publishes: reported as failed, fully applied *)
 Definition first_fault_apply (n : nat) (t : list nat) (es : list nat) : option (list nat) * list nat :=
   if Nat.eqb n 1 then (None, t) else (Some (t ++ es), t ++ es).
 
-Lemma apply_error_in_statement_complete_is_swallowed :
-  run_stmt (list nat) nat first_fault_apply [7] [CGood 1; CGood 2] = (ROk, [7; 1; 2]).
+Lemma apply_error_in_statement_complete_is_reported_but_applied :
+  run_stmt (list nat) nat first_fault_apply [7] [CGood 1; CGood 2] = (RErr, [7; 1; 2]).
 Proof. reflexivity. Qed.
 
-(* INSERT IGNORE with a one-shot storage error in the ApplyEdits of row 1's StatementComplete: the error is swallowed
-   (nil), row 1 stays pending in the accumulator, row 2 is an ignorable duplicate whose DiscardChanges clears the
-   accumulator: the statement SUCCEEDS and row 1 is lost *)
-Lemma swallowed_apply_error_loses_row :
-  run_stmt_ckpt (list nat) nat first_fault_apply [7] [CGood 1; CBad true; CGood 3] = (ROk, [7; 3]).
+(* INSERT IGNORE with a one-shot storage error in the ApplyEdits of row 1's StatementComplete: the error is reported
+   and the loop stops (before 647a7064d it was swallowed, row 2's DiscardChanges cleared the accumulator and the
+   statement SUCCEEDED without row 1); the retry in Close still applies the pending row 1 *)
+Lemma apply_error_in_insert_ignore_is_reported :
+  run_stmt_ckpt (list nat) nat first_fault_apply [7] [CGood 1; CBad true; CGood 3] = (RErr, [7; 1]).
 Proof. reflexivity. Qed.
